@@ -10,6 +10,24 @@ def exc(e):
     return {"err": type(e).__name__}
 
 
+def std_any(op, offs):
+    if op["t"] == "datetime":
+        dt = XmlDateTime(*op["v"]).to_datetime()
+        inst = (dt if dt.tzinfo else dt.replace(tzinfo=datetime.timezone.utc)) - datetime.datetime(1970, 1, 1, tzinfo=datetime.timezone.utc)
+        return {"fields": [dt.year, dt.month, dt.day, dt.hour, dt.minute, dt.second, dt.microsecond, offs(dt.utcoffset())],
+                "back": list(XmlDateTime.from_datetime(dt)),
+                "us": (inst.days * 86400 + inst.seconds) * 1000000 + inst.microseconds}
+    if op["t"] == "time":
+        t = XmlTime(*op["v"]).to_time()
+        return {"fields": [t.hour, t.minute, t.second, t.microsecond, offs(t.utcoffset())],
+                "back": list(XmlTime.from_time(t))}
+    a = XmlDate(*op["v"])
+    d, dt = a.to_date(), a.to_datetime()
+    return {"dfields": [d.year, d.month, d.day],
+            "fields": [dt.year, dt.month, dt.day, dt.hour, dt.minute, dt.second, dt.microsecond, offs(dt.utcoffset())],
+            "back_d": list(XmlDate.from_date(d)), "back_dt": list(XmlDate.from_datetime(dt))}
+
+
 def run(op):
     k = op["op"]
     try:
@@ -72,21 +90,12 @@ def run(op):
             # any value (in or out of the stdlib range): fields of the stdlib object(s), value converted back
             def offs(o):
                 return None if o is None else int(o.total_seconds())
-            if op["t"] == "datetime":
-                dt = XmlDateTime(*op["v"]).to_datetime()
-                inst = (dt if dt.tzinfo else dt.replace(tzinfo=datetime.timezone.utc)) - datetime.datetime(1970, 1, 1, tzinfo=datetime.timezone.utc)
-                return {"fields": [dt.year, dt.month, dt.day, dt.hour, dt.minute, dt.second, dt.microsecond, offs(dt.utcoffset())],
-                        "back": list(XmlDateTime.from_datetime(dt)),
-                        "us": (inst.days * 86400 + inst.seconds) * 1000000 + inst.microseconds}
-            if op["t"] == "time":
-                t = XmlTime(*op["v"]).to_time()
-                return {"fields": [t.hour, t.minute, t.second, t.microsecond, offs(t.utcoffset())],
-                        "back": list(XmlTime.from_time(t))}
-            a = XmlDate(*op["v"])
-            d, dt = a.to_date(), a.to_datetime()
-            return {"dfields": [d.year, d.month, d.day],
-                    "fields": [dt.year, dt.month, dt.day, dt.hour, dt.minute, dt.second, dt.microsecond, offs(dt.utcoffset())],
-                    "back_d": list(XmlDate.from_date(d)), "back_dt": list(XmlDate.from_datetime(dt))}
+            try:
+                return std_any(op, offs)
+            except OverflowError:
+                # the stdlib constructors raise OverflowError instead of ValueError for integers beyond a C int
+                # (year 242405547168): still "the conversion raised", which is all the model says (None)
+                return {"err": "ValueError"}
         if k == "now":
             # XmlTime.now(tz) / utcnow() / XmlDateTime.now(tz) between two reference readings of the clock
             tzm = op["tz"]
